@@ -155,6 +155,49 @@ func (o *Oracle) updateFields(src engine.Struct, S types.Type, pre engine.Value,
 	}
 }
 
+// skippedFieldFailures: a failed call of a map|FUNC function whose argument is the zero-valued source of a field
+// that update:ignoreZeroValueField skips.
+func (o *Oracle) skippedFieldFailures(pc *PathCtx) {
+	if pc.TgtIdx < 0 || pc.Conv.Spec == nil || pc.Conv.Spec.Update == nil || o.Calls == nil {
+		return
+	}
+	u := pc.Conv.Spec.Update
+	S, src := pc.SrcT, pc.Src
+	if sp, ok := S.Underlying().(*types.Pointer); ok {
+		p, ok := src.(engine.Pointer)
+		if !ok || p.Slot == nil {
+			return
+		}
+		src, S = *p.Slot, sp.Elem()
+	}
+	tpt, ok := pc.T.Sig.Params().At(pc.TgtIdx).Type().Underlying().(*types.Pointer)
+	if !ok {
+		return
+	}
+	T := tpt.Elem()
+	ts, ok := T.Underlying().(*types.Struct)
+	if _, sok := S.Underlying().(*types.Struct); !ok || !sok {
+		return
+	}
+	for i := 0; i < ts.NumFields(); i++ {
+		tf := ts.Field(i)
+		fs, _ := o.fieldSpec(S, T, tf.Name())
+		if fs == nil || fs.Fn == "" || fs.FnNoSource || fs.Getter {
+			continue
+		}
+		v, vt, nilOn, ok := o.walkPath(src, S, fs.Path, fs.Whole, tf.Name())
+		if !ok || nilOn || !u.selected(zeroCategory(vt)) {
+			continue
+		}
+		for _, c := range o.Calls.Calls {
+			if c.Name == fs.Fn && c.Failed && len(c.SourceArgs) > 0 {
+				o.leaf("target."+tf.Name(), engine.Not(engine.And(o.Identical(c.SourceArgs[0], v), o.IsZero(v, vt))),
+					"the update failed in "+fs.Fn+" called for a zero-valued "+zeroCategory(vt)+" source field that update:ignoreZeroValueField skips")
+			}
+		}
+	}
+}
+
 // CheckUpdate: C10 — update methods.
 func CheckUpdate(pc *PathCtx) {
 	o := &Oracle{R: pc.R, Spec: pc.Conv.Spec, Calls: pc.Calls}
@@ -168,7 +211,14 @@ func CheckUpdate(pc *PathCtx) {
 		return
 	}
 	if !pc.ErrIsNil() {
-		pc.count(true)
+		// an error ends the update - but it cannot come from a field that is skipped: the conversion of a
+		// zero-valued source field of a selected category does not take part in the update
+		o.skippedFieldFailures(pc)
+		if len(o.Leaves) > 0 {
+			pc.ProveLeaves("update", o)
+		} else {
+			pc.count(true)
+		}
 		return
 	}
 	// results: nothing but an optional error
@@ -304,6 +354,14 @@ func CheckDefault(pc *PathCtx) {
 			return
 		}
 		dv, dt = *p.Slot, dpt.Elem()
+	}
+	if o.Spec != nil {
+		if _, custom := o.Spec.Custom[pairKey(S, T)]; custom {
+			// the pair is served by a custom function: its result is the value, wherever it is stored
+			o.Match(src, S, got, T, "result")
+			pc.ProveLeaves("default", o)
+			return
+		}
 	}
 	ss, sok := S.Underlying().(*types.Struct)
 	_, tok := T.Underlying().(*types.Struct)
